@@ -35,6 +35,7 @@ import (
 
 	"verif/engine/enum"
 	"verif/engine/rep"
+	"verif/ref/der"
 	"verif/ref/pki"
 
 	"github.com/google/certificate-transparency-go/client"
@@ -120,7 +121,15 @@ type fixtures struct {
 
 func certable(i inst) bool {
 	y := i.t().Year()
-	return i.whole() && y >= 1 && y <= 9999
+	return y >= 1 && y <= 9999
+}
+
+// fracTime is the GeneralizedTime of an instant with a sub-second part (the repository's parser accepts fractions of
+// a second in validity times and keeps them; RFC 5280 forbids them, so only a lenient parser ever sees such a value).
+func fracTime(t time.Time) []byte {
+	u := t.UTC()
+	f := strings.TrimRight(fmt.Sprintf("%09d", u.Nanosecond()), "0")
+	return der.TLV(0x18, []byte(u.Format("20060102150405")+"."+f+"Z"))
 }
 
 func buildFixtures(r *rep.R, spaces []space) *fixtures {
@@ -148,8 +157,12 @@ func buildFixtures(r *rep.R, spaces []space) *fixtures {
 					exts = append(exts, pki.ExtPoison())
 					ser[3] = 1
 				}
-				return pki.Build(pki.Tmpl{Serial: ser, Issuer: fx.root.T.Subject, Subject: pki.CN(fmt.Sprintf("c18 leaf %d", n)),
-					NotBefore: pki.T0, NotAfter: i.t(), Key: pki.LoadKey("p256-1"), Exts: exts}, fx.root.T.Key)
+				tm := pki.Tmpl{Serial: ser, Issuer: fx.root.T.Subject, Subject: pki.CN(fmt.Sprintf("c18 leaf %d", n)),
+					NotBefore: pki.T0, NotAfter: i.t(), Key: pki.LoadKey("p256-1"), Exts: exts}
+				if !i.whole() {
+					tm.NotAfterDER = fracTime(i.t())
+				}
+				return pki.Build(tm, fx.root.T.Key)
 			}
 			ls := &leafSet{cert: mk(false), pre: mk(true)}
 			ls.chain = [][]byte{ls.cert.DER, fx.root.DER}
@@ -914,7 +927,7 @@ func TestCheck(t *testing.T) {
 	r.Assume("the statement does not decide whether an empty window (start == limit) may be constructed: either outcome is accepted for shard lists containing one (counted in empty_shard_lists_*), but if constructed it must never be chosen; the server may refuse or accept an inverted window but must then admit nothing",
 		"loglist3.TemporalInterval holds two plain time.Time values: 'both absent' is the nil interval, 'absent start' is the zero time.Time (what an omitted start_inclusive decodes to; it precedes every enumerated instant), 'absent limit with a present start' cannot be expressed and is not enumerated (loglist_windows_not_representable)",
 		"loglist3 filters Operator.Logs only; Operator.TiledLogs are carried through unfiltered by the library and are not part of the oracle",
-		"DER UTCTime/GeneralizedTime carry whole seconds (the x509 parser refuses fractions), so the server's admission and the client's AddChain routing are exercised with whole-second NotAfter only; sub-second instants reach IndexByDate and the log-list filter directly and the server through the converted bounds",
+		"certificates with a sub-second NotAfter are encoded as GeneralizedTime with a fraction of a second (RFC 5280 forbids it; the repository's lenient parser accepts and keeps the fraction), so the server's admission and the client's AddChain routing are exercised with sub-second NotAfter values as well",
 		"time.Unix / time.Time comparison of the Go standard library are trusted to realise the integer order on instants")
 
 	spaces := []space{anchorSpace("A", anchorA, th), anchorSpace("B", anchorB, th)}
